@@ -1207,7 +1207,7 @@ func nameTokens(r *rand.Rand) string {
 func generate(r *rand.Rand, tier string) []string {
 	n := 1500
 	if tier == "thorough" {
-		n = 45000
+		n = 40000
 	}
 	g := &gen{r: r}
 	var out []string
@@ -1270,7 +1270,7 @@ func generate(r *rand.Rand, tier string) []string {
 	// could not be read completely must be refused
 	nf := 160
 	if tier == "thorough" {
-		nf = 3000
+		nf = 2500
 	}
 	for i := 0; i < nf; i++ {
 		out = append(out, line(r.Int63n(1<<40), 0, g.describe(), "ff="+faultToken(r)))
@@ -1278,7 +1278,7 @@ func generate(r *rand.Rand, tier string) []string {
 	// LARGE descriptions: 80–300 more steps, the files are 30–200 KB (buffers, single reads, size limits of the hop)
 	nbig := 6
 	if tier == "thorough" {
-		nbig = 80
+		nbig = 40
 	}
 	for i := 0; i < nbig; i++ {
 		d := g.describe()
